@@ -66,17 +66,24 @@ class Lock:
         self.f.close()
 
 
+def _load_dir(d):
+    out = {}
+    if os.path.isdir(d):
+        for fn in sorted(os.listdir(d)):
+            if fn.endswith(".json"):
+                with open(os.path.join(d, fn)) as f:
+                    out[fn[:-5]] = json.load(f)
+    return out
+
+
 def load_obligations():
-    with open(os.path.join(LEAN, "obligations.json")) as f:
-        return json.load(f)
+    """lean/obligations.d/<ID>.json: which theorems and ties are the proof obligations of a property"""
+    return _load_dir(os.path.join(LEAN, "obligations.d"))
 
 
 def load_known():
-    p = os.path.join(VERIF, "known-findings.json")
-    if not os.path.exists(p):
-        return []
-    with open(p) as f:
-        return json.load(f).get("findings", [])
+    """known-findings.d/<Dn>.json (merged into known-findings.json by bin/mkmanifest for readers)"""
+    return list(_load_dir(os.path.join(VERIF, "known-findings.d")).values())
 
 
 class Rng:
